@@ -83,7 +83,7 @@ def check(ctx):
                     ok = ok and bool(v) and all(y.kind == "call" and (y.data.get("callee") or "").endswith("::as_bytes")
                                                 and all(z.kind == "param" and z.data == 3 for z in origins(prog, fn, y.data["args"][0], at=y.block)) for y in v)
                 else:
-                    lossy = any((tt.get("callee") or "").endswith("String::from_utf8_lossy") for c in prog.closures_of(fn) for bb, tt in c.calls())
+                    lossy = any((tt.get("callee") or "").endswith("String::from_utf8_lossy") for c in [fn] + prog.closures_of(fn) for bb, tt in c.calls())
                     ok = ok and lossy
             ctx.check(ok, "delegation", name + ":args", "DbXxx::%s is not its byte variant composed with UTF-8 encoding / lossy decoding" % name, where=where(fn))
         elif name in ("bulk_get_string", "bulk_delete_string"):
@@ -180,8 +180,11 @@ def check_lossy_only(ctx, prog, fn, name):
         for x in os_:
             if x.kind in ("param", "local") and not [p_ for p_ in x.proj if p_.startswith(("idx", "sub"))]:
                 continue
-            if x.kind == "call" and (x.data.get("callee") or "").endswith(("Iterator::next", "Vec::<T, A>::pop")) and not [p_ for p_ in x.proj if p_.startswith(("idx", "sub"))]:
-                continue       # the element of the result list being converted
+            if x.kind == "call" and (x.data.get("callee") or "").rsplit("::", 1)[-1] not in ("from_utf8", "as_bytes", "into_bytes", "into_vec", "split_at", "get", "split_off", "truncate") \
+                    and not [p_ for p_ in x.proj if p_.startswith(("idx", "sub"))]:
+                continue       # the value handed over by the byte-level call (payload of its Ok / Some), as a whole
+            if x.kind == "call" and (x.data.get("callee") or "") in ("abyssiniandb::DbXxx::get", "abyssiniandb::DbXxx::delete") and not [p_ for p_ in x.proj if p_.startswith(("idx", "sub"))]:
+                continue
             if x.kind == "call" and depth < 4 and (x.data.get("callee") or "").rsplit("::", 1)[-1] in ("from_utf8", "as_bytes", "into_bytes", "into_vec") and x.data.get("args") \
                     and whole_value(c, leaf_origins(prog, c, x.data["args"][0], at=x.block, terminal_only=True, opaque_index=True), depth + 1):
                 continue
